@@ -46,6 +46,8 @@ var handPrograms = []string{
 	"l = [t(1, 1)] + [t(2, 2)]\nl += [t(3, 3)]\na, b, c = l\nt(4, (a, b, c))\n",
 	"t(1, 1)\n",
 	"x = 1\n",
+	"def cb():\n    return t(1, 5) + t(2, 6)\np = hv(cb)\nn = 0\nfor i in range(3):\n    n += p.v\n    t(3, n)\n",
+	"def cb():\n    return [t(1, j) for j in range(2)]\np = hv(cb)\nx = p + 1\nt(2, x)\ny = [p.v, p + 2]\nt(3, len(y))\n",
 	"t(1, 0)\nload('work:3', 'a')\nt(2, a)\nx = [t(3, i) for i in range(2)]\n",
 	"load('work:2', 'a')\nload('work:1', b = 'a')\nt(1, a + b)\n",
 }
@@ -108,7 +110,34 @@ type runOut struct {
 	depth  int
 }
 
-func predeclaredHas(name string) bool { return name == "t" || name == "mk" }
+func predeclaredHas(name string) bool { return name == "t" || name == "mk" || name == "hv" }
+
+// hostVal is a host value whose computed attribute and whose + operator call a
+// Starlark function on the running thread: Starlark frames pushed from inside
+// an instruction that is not a CALL.
+type hostVal struct {
+	th *starlark.Thread
+	cb starlark.Value
+}
+
+func (h *hostVal) String() string        { return "hv" }
+func (h *hostVal) Type() string          { return "hv" }
+func (h *hostVal) Freeze()               {}
+func (h *hostVal) Truth() starlark.Bool  { return true }
+func (h *hostVal) Hash() (uint32, error) { return 7, nil }
+func (h *hostVal) AttrNames() []string   { return []string{"v"} }
+func (h *hostVal) Attr(name string) (starlark.Value, error) {
+	if name != "v" {
+		return nil, nil
+	}
+	return starlark.Call(h.th, h.cb, nil, nil)
+}
+func (h *hostVal) Binary(op syntax.Token, y starlark.Value, side starlark.Side) (starlark.Value, error) {
+	if op != syntax.PLUS {
+		return nil, nil
+	}
+	return starlark.Call(h.th, h.cb, nil, nil)
+}
 
 func execute(src string, cfg runCfg) (out runOut) {
 	th := &starlark.Thread{Name: "c07"}
@@ -127,7 +156,10 @@ func execute(src string, cfg runCfg) (out runOut) {
 	mk := starlark.NewBuiltin("mk", func(th *starlark.Thread, b *starlark.Builtin, args starlark.Tuple, kwargs []starlark.Tuple) (starlark.Value, error) {
 		return prog.NewObj(), nil
 	})
-	pre := starlark.StringDict{"t": t, "mk": mk}
+	hv := starlark.NewBuiltin("hv", func(th *starlark.Thread, b *starlark.Builtin, args starlark.Tuple, kwargs []starlark.Tuple) (starlark.Value, error) {
+		return &hostVal{th: th, cb: args[0]}, nil
+	})
+	pre := starlark.StringDict{"t": t, "mk": mk, "hv": hv}
 	_, p, err := starlark.SourceProgramOptions(allOpts, "p.star", src, pre.Has)
 	if err != nil {
 		out.static = true
@@ -233,6 +265,17 @@ func checkProgram(src string, st *fw.Stats, report func(k kase, what string)) {
 		return
 	}
 	baseFailed := base.err != ""
+	// the step counter never goes back: every built-in call sees a larger count than the one before,
+	// and the final count is not below the last one seen
+	for i := 1; i < len(base.events); i++ {
+		if base.events[i].step <= base.events[i-1].step {
+			report(kase{Src: src, Kind: "determinism"}, fmt.Sprintf("built-in call number %d saw ExecutionSteps() = %d, the call before it saw %d: the step counter went back", i+1, base.events[i].step, base.events[i-1].step))
+			break
+		}
+	}
+	if n := len(base.events); n > 0 && S < base.events[n-1].step {
+		report(kase{Src: src, Kind: "determinism"}, fmt.Sprintf("the run ended with ExecutionSteps() = %d, below the %d a built-in saw earlier", S, base.events[n-1].step))
+	}
 	ne := len(base.events)
 	if ne > 8 {
 		ne = 8
@@ -368,6 +411,8 @@ var growthFamilies = []struct{ name, tmpl string }{
 	{"nested-for", "for i in range(%d):\n    for j in (1, 2, 3):\n        pass\n"},
 	{"string-building", "s = ''\nfor i in range(%d):\n    s += 'a'\n"},
 	{"statements-of-a-module-loaded-on-the-same-thread", "load('work:%d', 'a')\nx = a\n"},
+	{"computed-attribute-calls-back", "def cb():\n    return 1\np = hv(cb)\nfor i in range(%d):\n    x = p.v\n"},
+	{"operator-calls-back", "def cb():\n    return [j for j in (1, 2)]\np = hv(cb)\nfor i in range(%d):\n    x = p + 1\n"},
 	{"star-args-call", "def g(*a):\n    return a\nfor i in range(%d):\n    g(*[i])\n"},
 }
 
